@@ -69,7 +69,7 @@ static const HelperDesc helpers[] = {
     {"kirchhoff_from_cauchy", 't', "sM", false, false},
     {"cauchy_from_kirchhoff", 't', "sM", false, true},
     {"pk1_from_cauchy", 't', "sM", false, false},
-    {"pk1_from_pk2", 't', "sS", false, true},
+    {"pk1_from_pk2", 't', "sSA", false, true},
     {"tau_from_pk1", 't', "sTA", false, true},
 };
 static const int nhelpers = sizeof(helpers) / sizeof(helpers[0]);
@@ -440,20 +440,26 @@ void helper(const std::string& h, const std::vector<T>& p, const std::vector<T>&
       }
     }
   } else if (h == "pk1_from_pk2") {
-    // q = S0 | dS/dE.  S(F) = S0 + dS.E(F) (second Piola-Kirchhoff stress, E the Green-Lagrange strain); P(F) = F.S(F),
-    // computed with the conversions of /repo through the Cauchy stress; the helper receives the Cauchy stress at F
+    // q = s0 | dS/dE | F0 (anchor).  The helper is given the Cauchy stress s0 at F0; the second Piola-Kirchhoff stress there is
+    // S0 = convertCauchyStressToSecondPiolaKirchhoffStress(s0, F0) and S(F) = S0 + dS.(E(F) - E(F0)), E the Green-Lagrange
+    // strain; P(F) = F.S(F).  The statement is made at F = F0 only.
     const auto F = mkt<T, N>(p, 0);
-    const auto S0 = mkst<T, N>(q, 0);
+    const auto s0 = mkst<T, N>(q, 0);
     const auto dS = mk4<st2tost2<N, T>>(q, ns, ns, ns);
-    const stensor<N, T> E = computeGreenLagrangeTensor(F);
-    const stensor<N, T> S = affine(S0, dS, E);
-    const stensor<N, T> sig = convertSecondPiolaKirchhoffStressToCauchyStress(S, F);
+    const auto F0 = mkt<T, N>(q, ns + ns * ns);
     if (wantf) {
-      const tensor<N, T> r = convertCauchyStressToFirstPiolaKirchhoffStress(sig, F);
+      const stensor<N, T> S0 = convertCauchyStressToSecondPiolaKirchhoffStress(s0, F0);
+      const stensor<N, T> E = computeGreenLagrangeTensor(F);
+      const stensor<N, T> E0 = computeGreenLagrangeTensor(F0);
+      stensor<N, T> S = S0;
+      for (unsigned short i = 0; i < S.size(); ++i)
+        for (unsigned short j = 0; j < E.size(); ++j) S[i] = S[i] + dS(i, j) * (E[j] - E0[j]);
+      const tensor<N, T> Su = unsyme(S);
+      const tensor<N, T> r = F * Su;
       pushv(f, r);
     }
     if (wantD) {
-      const t2tot2<N, T> d = convertSecondPiolaKirchhoffStressDerivativeToFirstPiolaKirchoffStressDerivative(dS, F, sig);
+      const t2tot2<N, T> d = convertSecondPiolaKirchhoffStressDerivativeToFirstPiolaKirchoffStressDerivative(dS, F, s0);
       pushm(D, d, nt, nt);
     }
   } else if (h == "tau_from_pk1") {
